@@ -133,6 +133,17 @@ def model_curves(tier, small):
         f = 1e-9 * (depth / max(n_app - nb, 1)) ** p_ \
             + tilt * 1e-9 * (up - back * 2.0) / n_app
         out.append((f"tilted-clean:{p_}:{tilt}:{n_app}", f, None))
+    # a falling baseline with a shallow indentation: the recording starts
+    # about as high as it ends (raw maximum at the end of the approach, the
+    # smoothed maximum among the first samples)
+    for j, top in enumerate([1.002, 1.01]):
+        n_app = sizes[(j + 1) % len(sizes)]
+        nb = int(n_app * 0.8)
+        i_ = np.arange(n_app, dtype=float)
+        f = np.where(i_ < nb, 1.0 - i_ / nb,
+                     top * ((i_ - nb) / max(n_app - 1 - nb, 1)) ** 2)
+        f = np.concatenate([f, f[::-1][1:n_app // 2]]) * 1e-9
+        out.append((f"falling-baseline:{top}:{n_app}", f, None))
     return out
 
 
